@@ -224,7 +224,14 @@ func setup(t *testing.T) *env {
 	t.Cleanup(mr.Close)
 	rcfg := cfg
 	rcfg.Redis = types.RedisConfig{Addr: mr.Addr(), DB: 0}
-	r, err := redisstore.New(rcfg, nil)
+	// go-redis re-sends a command whose reply is late (default MaxRetries 3, ReadTimeout 3 s): on a
+	// loaded machine that executed a marker DECR two or three times for ONE AddWorkload call.  The
+	// harness switches the client's automatic retries off; a late reply then surfaces as a timeout
+	// error, which runCase treats as an infrastructure failure (the case restarts on a fresh store).
+	rcli := goredis.NewClient(&goredis.Options{Addr: mr.Addr(), DB: 0, MaxRetries: -1,
+		ReadTimeout: 10 * time.Second, WriteTimeout: 10 * time.Second, PoolTimeout: 15 * time.Second})
+	t.Cleanup(func() { _ = rcli.Close() })
+	r, err := redisstore.VerifNewWithClient(rcli, rcfg)
 	if err != nil {
 		t.Fatal(err)
 	}
@@ -644,11 +651,14 @@ func runCaseOnce(ctx context.Context, e *env, k *kase) int {
 			if k.Kind == "deploy" && b.revNow != nil {
 				revBefore = b.revNow()
 			}
+			t0 := time.Now()
 			kind, msg := hx.Guard(20*time.Second, func() { res = exec(ctx, b, o) })
 			if kind != "" {
 				res = map[string]any{"err": kind + ":" + msg}
 			}
-			if infraError(res) {
+			// an operation that stalled for seconds went through client-side timeouts/retries of the
+			// etcd or redis client libraries: not a clean execution of the store code
+			if infraError(res) || time.Since(t0) > 2500*time.Millisecond {
 				return i
 			}
 			entry := map[string]any{"r": res}
